@@ -75,10 +75,16 @@ func ChooseRandomIndexN[S ~[]V, V any](slice S, n int) (result []int) {
 	if n > len(slice) || n < 0 {
 		panic(fmt.Errorf("inputN is greater than the length of the input or less than 0, inputN: %d, length: %d", n, len(slice)))
 	}
-	result = make([]int, n)
-	for i := 0; i < n; i++ {
-		result[i] = random.Int(0, len(slice)-1)
+	// partial Fisher–Yates shuffle over the indices: the first n cells are n distinct indices
+	indices := make([]int, len(slice))
+	for i := range indices {
+		indices[i] = i
 	}
+	for i := 0; i < n; i++ {
+		j := random.Int(i, len(slice)-1)
+		indices[i], indices[j] = indices[j], indices[i]
+	}
+	result = indices[:n]
 	return
 }
 
